@@ -88,6 +88,30 @@ checks["C15"] = (lv, eng, tech, text + " Second stage: read-only operations are 
 lv, eng, tech, text, note = checks["C07"]
 checks["C07"] = (lv, eng, tech, text + " In every registry state the encoder side is checked too: a proprietary command carrying the size registered for its direction encodes to CID|payload, alone and inside a frame of that direction, and decodes back.", note)
 
+# third stage (DESIGN.md 10.6)
+STAGE3 = {
+ "C03": " Third stage: the four encryption methods on frames whose FOpts / FRMPayload cannot be serialised (a nil error with an unchanged frame is the violation).",
+ "C04": " Third stage: the receiver's side (the specification's frame decoded from the wire validates and recomputes the same MIC) and the MIC of the other form (1.0 vs 1.1) presented to every join-accept, which must be rejected.",
+ "C06": " Third stage: DeviceTimeAns durations at seven offsets inside every 1/256 s step (what the bytes denote is less than one step away).",
+ "C07": " Third stage: DeviceTimeAns between wire steps; in every registry state a stream with the registered proprietary CID twice with different bytes, and a second stream decoded while the first result is kept.",
+ "C09": " Third stage: every decoder also on an exact-capacity copy of its input (over-reads), 17 lengths around 255 x 16 bytes and 2^16; schedules: the FOpts / FRMPayload command decoders against concurrent registrations, every interleaving, every thread returns (sync.RWMutex with pending writers: a recursive read lock is a deadlock).",
+ "C11": " Third stage: every byte length 0..4n+2 x four fillers (incl. ASCII hex digits) through binary decode and Scan, every number of hex digits 0..6n+4 x three digit patterns x {plain, 0x}.",
+ "C12": " Third stage: IN865 RX1 table as an exact rule; 50 far integers (folded onto valid indices by any narrowing conversion) through the data-rate and offset arguments.",
+ "C13": " Third stage: explicit-state search over channel histories, every data-rate handed out is defined and supported by a channel.",
+ "C14": " Third stage: 20-channel dynamic plans (second block; generic block rule in the device model, stated as an assumption).",
+ "C16": " Third stage: every zero/non-zero pattern of the six CFList masks, channel lists with extreme frequency codes, the three JSON spellings of an absent CFList; handlers hand their KEKs out by reference while the judge keeps its own copies.",
+ "C17": " Third stage: text / JSON decoding into reused receivers (an empty value must replace what the receiver held).",
+ "C18": " Third stage: every payload re-encoded with its byte slices held as windows into larger buffers (the encoding must not depend on capacity); history alphabets per package and direction.",
+ "C19": " Third stage: six data patterns (among them rows whose 8-byte words cancel under XOR).",
+ "C20": " Third stage: every instant also held in four other Locations; schedules: conversions of three published instants and an airtime computation from three threads including the first calls of the process (a round the fixpoint abandons is judged before it is discarded).",
+}
+for k, t in STAGE3.items():
+    lv, eng, tech, text, note = checks[k]
+    checks[k] = (lv, eng, tech, text + t, note)
+for k in ("C09", "C20"):
+    lv, eng, tech, text, note = checks[k]
+    checks[k] = (lv, eng, E1 + "; " + E3, text, note)
+
 def load_extra():
     p = os.path.join(V, "bin", "manifest_table.json")
     if os.path.exists(p):
